@@ -38,6 +38,10 @@ DiagramsVerdict(c) ==
      ELSE IF c.haslegend # c.legend THEN <<"fail", "legend-presence", 0>>
      \* legend texts are only prescribed when the caller passed labels (the default label text is not part of the property)
      ELSE IF c.legend = 1 /\ Len(c.labels) > 0 /\ \E i \in 1..Len(sel) : ~\E t \in 1..Len(c.legtexts) : c.legtexts[t] = c.labels[sel[i]] THEN <<"fail", "legend-texts", 0>>
+     \* the text a diagram's collection carries (default or given) must not depend on plot_only: reflabels are the collection labels of
+     \* the same call without plot_only (relational; no particular default text is demanded)
+     ELSE IF Len(c.reflabels) = Len(c.dgms) /\ Len(c.colllabels) = Len(sel) /\ \E i \in 1..Len(sel) : c.colllabels[i] # c.reflabels[sel[i]]
+          THEN <<"fail", "label-of-a-plotted-diagram-depends-on-plot_only", 0>>
      ELSE <<"ok", "", 0>>
 \* matching plots: segments in 1/q ticks with q even, so that the perpendicular foot ((b+d)/2, (b+d)/2) is on the lattice
 PadD(X) == IF X = <<>> THEN << <<0, 0>> >> ELSE X      \* an empty diagram is drawn as its placeholder, the diagonal point (0,0), index 0
